@@ -36,7 +36,11 @@ OPS = ('add_r', 'add_e', 'add_c', 'replace', 'remove_m', 'remove_e', 'reset', 'c
 TARGETED = (
     ('add_r', 'add_r', 'replace', 'call'), ('add_r', 'add_e', 'call', 'call'), ('add_r', 'add_c', 'replace', 'call', 'call'),
     ('add_r', 'add_r', 'remove_m', 'call'), ('add_r', 'call', 'add_r', 'call', 'call'), ('add_r', 'add_r', 'add_r', 'call', 'call'),
+    # patches whose configured result is a FALSY value (0, '', [], false, {})
+    ('add_z', 'call'), ('add_r', 'add_z', 'call', 'call'), ('add_z', 'add_z', 'add_z', 'call', 'call', 'call'), ('add_r', 'add_z', 'add_z', 'batch'),
+    ('add_z', 'add_z', 'add_z', 'add_z', 'add_z', 'batch'),
 )
+FALSY = (0, '', [], False, {})
 PAIRS = (('http://A', 'f'), ('http://A', 'g'), ('http://B', 'f'))
 
 
@@ -158,6 +162,8 @@ def _drive(env, ob, mocker, cls, wire, is_async, um, pjrpc, mock_target):
         p = {'once': once, 'kind': kind, 'n': n}
         if kind == 'r':
             kw = {'result': f'r{n}'}
+        elif kind == 'z':
+            kw = {'result': FALSY[n % len(FALSY)]}
         elif kind == 'e':
             kw = {'error': pjrpc.exc.JsonRpcError(code=1000 + n, message=f'e{n}')}
         else:
@@ -178,6 +184,9 @@ def _drive(env, ob, mocker, cls, wire, is_async, um, pjrpc, mock_target):
         if p['kind'] == 'r':
             if rdoc.get('result') != f"r{p['n']}" or 'error' in rdoc:
                 raise Violation('wrong-patch-answered', (where, p['n'], rdoc))
+        elif p['kind'] == 'z':
+            if 'error' in rdoc or not same_json(rdoc.get('result', 'missing'), FALSY[p['n'] % len(FALSY)]):
+                raise Violation('configured-falsy-result-not-returned', (where, p['n'], rdoc))
         elif p['kind'] == 'e':
             if 'error' not in rdoc or rdoc['error'].get('code') != 1000 + p['n'] or 'result' in rdoc:
                 raise Violation('wrong-patch-answered', (where, p['n'], rdoc))
@@ -200,7 +209,7 @@ def _drive(env, ob, mocker, cls, wire, is_async, um, pjrpc, mock_target):
     for n, op in enumerate(ob['ops']):
         e, m = _pick_pair(env, n, (n == 0 and op.startswith('add')) or ob.get('fixpair', False))
         where = (n, op, e, m)
-        if op in ('add_r', 'add_e', 'add_c'):
+        if op in ('add_r', 'add_e', 'add_c', 'add_z'):
             p, kw = mk_patch(n, op[-1])
             mocker.add(e, m, **kw)
             Q.setdefault((e, m), []).append(p)
